@@ -303,6 +303,56 @@ func execC10(spec *RunSpec) *Result {
 			res.Cover = append(res.Cover, "ok/"+op.Entry+"/"+op.Data.Shape)
 		}
 	}
+	// Nondeterminism the simulator does not own (e.g. Go's map order inside a dependency): the same history under
+	// the same simulator configuration gives different bytes from one execution to the next. That is itself a
+	// violation of "rendering the same inputs twice gives byte-identical output", and it must be recognised as
+	// such, because a mismatch caused by it does not replay as the same mismatch.
+	repeatDiffers := false
+	for _, v := range res.Violations {
+		if v.Class == "repeat-differs" {
+			repeatDiffers = true
+		}
+	}
+	if mism >= 0 || repeatDiffers || spec.Probe {
+		// Go's iteration over a small map starts at a random slot of an 8-slot group: a 3-entry map comes out in
+		// its "canonical" order 3 times out of 4, so a few re-executions are not enough to see the randomness.
+		for k := 0; k < 60; k++ {
+			again, _, _ := runHistory(spec, spec.Kernel)
+			res.addStat("cases", int64(len(spec.Ops)))
+			for i := range spec.Ops {
+				if spec.Ops[i].Kind != "render" && spec.Ops[i].Kind != "" {
+					continue
+				}
+				if !sameResult(again[i], outs[i]) {
+					probe := cloneSpec(spec)
+					probe.Probe = true
+					res.violateSpec(probe, "C10", "nondeterministic-output", "identical executions of one history give different bytes",
+						"op %d (%s %s): two executions of the same history under the same simulator configuration differ (a source of nondeterminism outside the simulator's seams, e.g. map iteration inside a dependency):\n  one:     %s\n  another: %s", i, spec.Ops[i].Entry, spec.Ops[i].File, outs[i], again[i])
+					mism = -1
+					break
+				}
+			}
+			if len(res.Violations) > 0 && res.Violations[len(res.Violations)-1].Class == "nondeterministic-output" {
+				break
+			}
+		}
+		// differences between repetitions / from the fresh engine in such a run are consequences of it
+		nondet := false
+		for _, v := range res.Violations {
+			if v.Class == "nondeterministic-output" {
+				nondet = true
+			}
+		}
+		if nondet {
+			keep := res.Violations[:0]
+			for _, v := range res.Violations {
+				if v.Class != "repeat-differs" && v.Class != "fresh-engine-mismatch" {
+					keep = append(keep, v)
+				}
+			}
+			res.Violations = keep
+		}
+	}
 	if mism >= 0 {
 		op := spec.Ops[mism]
 		cause, sig := attributeC10(spec, mism, refs[opKey(op)], rep.MapSites)
